@@ -362,3 +362,69 @@ def c3_polling(fb, rep):
                         src[v['n']] = show(v.get('init'))
         okr = 'maxTimeMillis' in src.get('maxT', '') and 'minTimeMillis' in src.get('minT', '')
         rep.ob(clause, 'K15 provenance', 'shouldStop reads the shared (RelaxedShared) limits afresh on every poll', okr, sh.where, str(src), sh.sname)
+        _limit_bounded(fb, rep, clause, sh)
+
+
+def _limit_bounded(fb, rep, clause, sh):
+    """K12: whatever shouldStop compares the elapsed time with is, on every path, bounded by the hard
+    limit: the hard limit itself, the soft limit (soft <= hard by C06.1), a selection between bounded
+    values, or std::min(anything, bounded).  A scaled soft limit without the cap can exceed the budget."""
+    from .. import bbalg as B
+    sites = []
+    for bid, blk in sh.blocks.items():
+        if bid in sh.dead:
+            continue
+        t = blk.get('term') or {}
+        c = t.get('cond')
+        if c is None:
+            continue
+        for n in walk(c):
+            if n.get('k') == 'bin' and n.get('op') in ('>=', '>'):
+                l = _strip(n.get('l'))
+                if isinstance(l, dict) and l.get('k') == 'bin' and l.get('op') == '-' and any(ap(x) == 'this.tStart' for x in walk(l.get('r'))):
+                    sites.append((bid, n))
+    seen = set()
+    uniq = []
+    for bid, n in sites:
+        k = show(n, 300)
+        if k not in seen:
+            seen.add(k)
+            uniq.append((bid, n))
+    rep.floor(clause, 'elapsed-time comparisons in shouldStop', len(uniq), 1)
+
+    def bounded(t, depth=0):
+        t = _strip(t)
+        if not isinstance(t, dict) or depth > 20:
+            return False
+        if t.get('k') == 'ctor' and len(t.get('args', [])) == 1:
+            return bounded(t['args'][0], depth + 1)
+        p = ap(t)
+        if p in ('this.maxTimeMillis', 'this.minTimeMillis'):
+            return True
+        if t.get('k') == 'call':
+            n = cname(t)
+            if n in ('RelaxedShared::operator long', 'RelaxedShared::get') or (n.startswith('RelaxedShared') and t.get('recv') is not None and not t.get('args')):
+                return bounded(t.get('recv'), depth + 1)
+            if n == 'std::min' and len(t.get('args', [])) == 2:
+                return bounded(t['args'][0], depth + 1) or bounded(t['args'][1], depth + 1)
+            if n == 'std::max' and len(t.get('args', [])) == 2:
+                return bounded(t['args'][0], depth + 1) and bounded(t['args'][1], depth + 1)
+        if t.get('k') == 'cond':
+            return bounded(t['a'], depth + 1) and bounded(t['b'], depth + 1)
+        return False
+    for bid, n in uniq:
+        lim = n.get('r')
+        ids = B.var_ids(lim)
+        track = B.relevant_ids(sh, ids)
+        try:
+            stores = B.sym_stores(sh, (bid, 0), track)
+        except B.Unsupported as ex:
+            rep.broken(clause, 'shouldStop: %s' % ex)
+            continue
+        bad = []
+        for store, _ in stores:
+            t = B.subst(lim, store)
+            if not bounded(t):
+                bad.append(show(t, 300))
+        rep.ob(clause, 'K12 bound', 'shouldStop: the limit the elapsed time is compared with never exceeds the hard limit', not bad, '%s:%s' % (sh.file, sh.blocks[bid]['term'].get('ln')),
+               'unbounded on some path: %s' % bad[0] if bad else '%d path class(es): hard limit, soft limit, or min(..., hard)' % len(stores), sh.sname)
